@@ -403,6 +403,41 @@ class Fn:
             return ("proj", base, proj)
         return base
 
+    def feeding_calls(self, op, depth=5):
+        """short names of every call in the backward data slice of a value: through copies, references, casts, aggregates (arrays, tuples, structs) and
+        the arguments of the calls met on the way — `f(&[a.as_str(), b.as_str()])` is fed by whatever produced a and b, like `f(&a, &b)` is"""
+        out = set()
+        seen = set()
+
+        def go(o, d):
+            if d < 0:
+                return
+            t = o[0]
+            if t == "proj":
+                go(o[1], d)
+            elif t == "call":
+                k_ = (o[1].fn.id, o[1].bb)
+                if k_ in seen:
+                    return
+                seen.add(k_)
+                out.add(short_path(o[1].best))
+                for a in o[1].args[:6]:
+                    go(o[1].fn.origin(a), d - 1)
+            elif t == "aggr":
+                for a in o[1].get("ops", [])[:16]:
+                    go(self.origin(a), d - 1)
+            elif t == "multi":
+                for x in o[2]:
+                    go(x, d - 1)
+            elif t in ("bin",):
+                for x in o[2:4]:
+                    if isinstance(x, tuple):
+                        go(x, d - 1)
+            elif t == "un":
+                go(o[2], d - 1)
+        go(self.origin(op), depth)
+        return out
+
     @staticmethod
     def _proj_str(p):
         k = p["k"]
